@@ -251,6 +251,15 @@ def run(run: core.Run):
                 for m in METHODS:
                     for dt in (["int", None], [None, "int"], ["float32", None]):
                         cases.append({"axes": [a, b] if dt[0] else [b, a], "tol": tol, "method": m, "weights": "none", "seed": run.seed, "dtypes": dt})
+    for pa in perm3:  # both datasets on the very same non-ascending axis
+        for m in METHODS:
+            cases.append({"axes": [pa, pa], "tol": 0.25, "method": m, "weights": "none", "seed": run.seed})
+            cases.append({"axes": [pa, pa], "tol": 0.0, "method": m, "weights": "last", "seed": run.seed})
+    # coordinates of tiny magnitude (SI units: metres, seconds): at tolerance 0 only identical coordinates are linked
+    for a, b in itertools.product(ax2, ax2):
+        for scale in (1e-9, 1e-12):
+            cases.append({"axes": [[v * scale for v in a], [v * scale + (scale * 1e-3 if i == 0 else 0.0) for i, v in enumerate(b)]],
+                          "tol": 0.0, "method": "nearest", "weights": "none", "seed": run.seed})  # fmt: skip
     run.bounds["axis_orders"] = "all orderings of every 3-point axis over the first %d grid points" % (4 if quick else 5)
     run.map("provider", cases, chunksize=64)
     # end to end
@@ -272,6 +281,8 @@ def run(run: core.Run):
                 for m in METHODS if not quick else ["nearest"]:
                     e2e.append({"axes": [pa, b], "tol": tol, "method": m, "weights": "none", "seed": run.seed})
                     e2e.append({"axes": [b, pa], "tol": tol, "method": m, "weights": "none", "seed": run.seed})
+    for pa in perm3[:4]:
+        e2e.append({"axes": [pa, pa], "tol": 0.25, "method": "nearest", "weights": "none", "seed": run.seed})
     run.map("e2e", e2e)
     run.rule = (
         "exhaustive: all ordered tuples of global axes (non-empty subsets of a 7-point grid) x tolerances x methods "
